@@ -55,6 +55,9 @@ pub struct BodyPlan {
     pub rereads: usize,
     pub read_timeout_ms: u64,
     pub extra_headers: Vec<(String, Vec<u8>)>,
+    /// which `std::io::Read` entry point the size schedule goes through: 0 = `read`, 1 = `read_vectored`
+    /// (two slices), 2 = `take(n).read_to_end()` (waits for n bytes: not for the "never waits" checks)
+    pub read_api: u8,
     /// description of the injected damage, if any
     pub damage: String,
     /// offset at which the wire was cut (C02), if it was
@@ -250,6 +253,12 @@ pub fn gen_plan(g: &mut G, max_payload: usize) -> BodyPlan {
         rereads: g.below(4) as usize,
         read_timeout_ms: 30_000,
         extra_headers: extra,
+        // derived, not drawn: recorded tapes of earlier findings keep their meaning
+        read_api: match (len * 7 + nsegs) % 6 {
+            0 => 1,
+            1 => 2,
+            _ => 0,
+        },
         damage: String::new(),
         cut_at: None,
     }
@@ -293,6 +302,7 @@ pub fn plan_from_payload(g: &mut G, payload: Vec<u8>, mut headers: Vec<(String, 
         rereads: 0,
         read_timeout_ms: 30_000,
         extra_headers: headers,
+        read_api: 0,
         damage: String::new(),
         cut_at: None,
     }
@@ -324,13 +334,18 @@ impl BodyPlan {
             _ => "xl",
         };
         format!(
-            "{:?}/{}/chunks={}{}/seg={}/read={}/g={}/eintr={}/coal={}/end={:?}/dmg={}/rr={}",
+            "{:?}/{}/chunks={}{}/seg={}/read={}{}/g={}/eintr={}/coal={}/end={:?}/dmg={}/rr={}",
             self.framing,
             sz,
             cc,
             if big { "+big" } else { "" },
             self.seg_name,
             rm,
+            match (&self.read_mode, self.read_api) {
+                (ReadMode::Sizes(..), 1) => "+vectored",
+                (ReadMode::Sizes(..), 2) => "+take_to_end",
+                _ => "",
+            },
             self.garbage > 0,
             !self.faults.read_eintr.is_empty(),
             self.faults.coalesce,
@@ -354,7 +369,7 @@ impl BodyPlan {
             })
             .collect();
         format!(
-            "{} framing={:?} payload={}B chunks={:?} garbage={} head={}B wire={}B segs[{}{}]={} end={:?} read={:?} rereads={} eintr_at={:?} coalesce={} damage=[{}] head_text={:?}",
+            "{} framing={:?} payload={}B chunks={:?} garbage={} head={}B wire={}B segs[{}{}]={} end={:?} read={:?} read_api={} rereads={} eintr_at={:?} coalesce={} damage=[{}] head_text={:?}",
             self.method,
             self.framing,
             self.payload.len(),
@@ -367,6 +382,7 @@ impl BodyPlan {
             segs.join(","),
             self.end,
             self.read_mode,
+            ["read", "read_vectored", "take+read_to_end"][self.read_api.min(2) as usize],
             self.rereads,
             self.faults.read_eintr,
             self.faults.coalesce,
@@ -547,7 +563,30 @@ pub fn caller_with(plan: &BodyPlan, stop_on_block: bool, tweak: impl FnOnce(atto
                 i += 1;
                 let t_in = attosim::now_ns();
                 let handed_before = o.output.len();
-                let r = resp.read(&mut buf[..sz]);
+                let r = match plan.read_api {
+                    1 if sz >= 2 => {
+                        let (a, b) = buf[..sz].split_at_mut((sz / 3).max(1));
+                        resp.read_vectored(&mut [std::io::IoSliceMut::new(a), std::io::IoSliceMut::new(b)])
+                    }
+                    2 if sz >= 1 => {
+                        // whatever arrived before an error has been handed to the caller as well
+                        let mut v = Vec::new();
+                        let r = (&mut resp).take(sz as u64).read_to_end(&mut v);
+                        buf[..v.len()].copy_from_slice(&v);
+                        match r {
+                            Ok(n) => Ok(n),
+                            Err(e) => {
+                                if !v.is_empty() {
+                                    // the caller got these bytes and then the error: two calls in the record
+                                    o.output.extend_from_slice(&v);
+                                    o.calls.push(Call { what: "read", size: sz, t_in, t_out: attosim::now_ns(), res: Ok(v.len()), handed_before });
+                                }
+                                Err(e)
+                            }
+                        }
+                    }
+                    _ => resp.read(&mut buf[..sz]),
+                };
                 let t_out = attosim::now_ns();
                 let res = match &r {
                     Ok(n) => {
@@ -562,6 +601,7 @@ pub fn caller_with(plan: &BodyPlan, stop_on_block: bool, tweak: impl FnOnce(atto
                     Ok(_) => false,
                     Err(_) => !interrupted,
                 };
+                let handed_before = if matches!(&res, Err(_)) { o.output.len() } else { handed_before };
                 o.calls.push(Call { what: "read", size: sz, t_in, t_out, res, handed_before });
                 if ended {
                     after_end += 1;
